@@ -106,12 +106,12 @@ def run(c):
     AGINV = "TypeInv PartitionInv FlagsInv SymInv"
     jobs = [
         # transcriptions of the code as it is meant to be (repaired variants); longest first
-        lambda: model("RugeStubenModel", "sym6", N=6, Sym="TRUE", Modes="{21}", EpsDens="{4}", TruncDens="{2}", invariants=RSINV, workers=3),
+        lambda: model("RugeStubenModel", "sym6", N=6, Sym="TRUE", Modes="{21}", EpsDens="{4}", TruncDens="{2}", invariants=RSINV, workers=4),
         lambda: model("RugeStubenModel", "di4", N=4, Modes="{22}" if not th else M4, invariants=RSINV, workers=3),
         lambda: model("RugeStubenModel", "sym5", N=5, Sym="TRUE", Modes="{15, 21, 22}" if not th else ALL, invariants=RSINV, workers=3),
         lambda: model("SmoothedModel", "di4", N=4, Modes="{7, 22}" if not th else M4, OmegaCodes="{23}", workers=3),
         lambda: model("AggregatesModel", "di4", N=4, Modes=NOSIGN, invariants=AGINV, workers=2),
-        lambda: model("RugeStubenModel", "di3", N=3, Modes=ALL, invariants=RSINV + " RunInv", workers=2),
+        lambda: model("RugeStubenModel", "di3", N=3, Modes=M4, invariants=RSINV + " RunInv", workers=2),
         lambda: model("SmoothedModel", "di3", N=3, OmegaCodes="{12, 23, 11}", workers=2),
         lambda: model("SmoothedModel", "kron3x2", N=3, BS=2, Modes="{7, 22}", OmegaCodes="{12}", EpsDens="{4}"),
         lambda: model("BlockLiftModel", "kron3x2", N=3, BS=2, Modes="{0, 7, 13, 18}", workers=2),
@@ -142,11 +142,11 @@ def run(c):
         ("enum2", ["enum", 2, 0, "plasSer", "all", 1], 1200),
         ("enum3-agg", ["enum", 3, 0, "pl", NOSIGN.strip("{}").replace(" ", ""), 1], 1200),
         ("enum3", ["enum", 3, 0, "asSer", "all", S or 2], 1200),
-        ("enum4-agg", ["enum", 4, 0, "p", "1,7,13,19,0", S or 2], 2500),
-        ("enum4", ["enum", 4, 0, "asr", "7,9,15,22", S or 5], 1500),
-        ("enum4-block", ["enum", 4, 0, "lS", "7,22", S or 16], 600),
-        ("sym5", ["enum", 5, 1, "psr", "all", S or 5], 1500),
-        ("sym6", ["enum", 6, 1, "r", "19,21", S or 16], 1500),
+        ("enum4-agg", ["enum", 4, 0, "p", "1,7,13,19,0", S or 3], 2000),
+        ("enum4", ["enum", 4, 0, "asr", "7,9,15,22", S or 10], 1000),
+        ("enum4-block", ["enum", 4, 0, "lS", "7,22", S or 16], 300),
+        ("sym5", ["enum", 5, 1, "psr", "all", S or 10], 1200),
+        ("sym6", ["enum", 6, 1, "r", "19,21", S or 16], 800),
         ("random", ["random"], 40),
         ("nullspace", ["ns"], 60),
         ("poison", ["poison"], 200),
@@ -158,8 +158,13 @@ def run(c):
         t = c.record(rc, args, out=c.path("co-%s.ndjson" % label), sig={"coarsening": "recorder", "clause": "crash"})
         traces.append((label, t, chunk))
 
-    # models first (8 JVMs at most), then the traces (tlc_trace runs its chunks in parallel)
-    c.parallel(jobs, max_workers=6)
+    # models first (at most 6 JVMs), then the traces (tlc_trace runs its chunks in parallel).
+    # The models do not depend on REPO: VERIF_C04_SKIP_MODELS=1 (development aid for mutation runs) skips them.
+    if os.environ.get("VERIF_C04_SKIP_MODELS"):
+        c.note("models skipped (VERIF_C04_SKIP_MODELS)")
+        jobs = []
+    if jobs:
+        c.parallel(jobs, max_workers=6)
     for name, key in (("tie", "RowSumInv"), ("lift", "LiftInv"), ("uninit", "NoOOBInv")):
         m = pinned.get(name)
         if m is not None and m["violated"]:
@@ -171,34 +176,55 @@ def run(c):
 
     seen = {"tie": 0, "lift": 0, "poison": 0}
     drift = 0
+    # One stateless trace: the records of all recorder runs are interleaved deterministically so that the
+    # 16 parallel chunks cost about the same (one JVM each); `origin` maps a merged line back to its run.
+    merged, origin = [], []
     for label, t, chunk in traces:
-        res = c.tlc_trace("C04Trace", t, label=label, chunk=chunk, timeout=1700)
-        for ln in res["lines"][::max(1, len(res["lines"]) // 3)]:
-            c.sample(ln, limit=8)
-        for ln in res["lines"]:
-            if '"empty":false' in ln:
-                c.nontrivial.add(hash(ln.split('"A":')[1][:400] + ln[:60]))
-        for lineno, clauses in res["bad"][:400]:
-            line = res["lines"][lineno - 1] if 0 < lineno <= len(res["lines"]) else "{}"
-            try:
-                rec = json.loads(line)
-            except Exception:
-                rec = {"raw": line}
-            if clauses == ["drift"]:
-                drift += 1
-                if drift <= 3:
-                    c.drift("recorded %s output differs from the transcription's Run although every predicate holds (%s line %d)"
-                            % (rec.get("k"), label, lineno))
-                continue
-            s = sig(rec, clauses)
-            s["stage"] = label
-            if s.get("tie"):
-                seen["tie"] += 1
-            if s["clause"] == "blocklift-flags" or (s["coarsening"] == "smoothed_aggregation" and s["bs"] > 1):
-                seen["lift"] += 1
-            if s.get("poison"):
-                seen["poison"] += 1
-            c.violation(what_of(rec, clauses, s), {"line": rec, "lineno": lineno, "clauses": clauses}, s)
+        for n, ln in enumerate(open(t).read().splitlines(), 1):
+            if ln.strip() and '"e":"End"' not in ln:
+                origin.append((label, n))
+                merged.append(ln)
+    order = sorted(range(len(merged)), key=lambda i: (i * 2654435761) % 4294967296)
+    mp = c.path("co-all.ndjson")
+    with open(mp, "w") as f:
+        for i in order:
+            f.write(merged[i] + "\n")
+        f.write('{"e":"End"}\n')
+    per = {}
+    for label, n in origin:
+        per[label] = per.get(label, 0) + 1
+    c.note("recorded lines per run: " + ", ".join("%s=%d" % kv for kv in sorted(per.items())))
+    res = c.tlc_trace("C04Trace", mp, label="all recorder runs (%d lines)" % len(merged),
+                      chunk=max(500, (len(merged) + 15) // 16), timeout=3000)
+    for ln in res["lines"][::max(1, len(res["lines"]) // 8)]:
+        c.sample(ln, limit=8)
+    for ln in res["lines"]:
+        if '"empty":false' in ln:
+            c.nontrivial.add(hash(ln.split('"A":')[1][:400] + ln[:60]))
+    for lineno, clauses in res["bad"][:3000]:
+        line = res["lines"][lineno - 1] if 0 < lineno <= len(res["lines"]) else "{}"
+        label, olineno = origin[order[lineno - 1]] if 0 < lineno <= len(order) else ("?", 0)
+        try:
+            rec = json.loads(line)
+        except Exception:
+            rec = {"raw": line}
+        if clauses == ["drift"]:
+            drift += 1
+            if drift <= 3:
+                c.drift("recorded %s output differs from the transcription's Run although every predicate holds (%s line %d)"
+                        % (rec.get("k"), label, olineno))
+            continue
+        s = sig(rec, clauses)
+        s["stage"] = label
+        if s.get("tie"):
+            seen["tie"] += 1
+        if s["clause"] == "blocklift-flags" or (s["coarsening"] == "smoothed_aggregation" and s["bs"] > 1):
+            seen["lift"] += 1
+        if s.get("poison"):
+            seen["poison"] += 1
+        c.violation(what_of(rec, clauses, s), {"line": rec, "run": label, "lineno": olineno, "clauses": clauses}, s)
+    if drift:
+        c.note("%d enumerated cases drifted from the transcription" % drift)
     c.exhaustive = True
     # a pinned-variant counter-example that the real code does not reproduce = the repository was repaired
     for name, key in (("tie", "tie"), ("lift", "lift"), ("uninit", "poison")):
